@@ -33,18 +33,20 @@ from harness import tlc
 
 PROP = 'C12'
 SHARDS = ['acc1', 'acc2', 'acc3', 'acc4', 'acc5', 'dbl', 'cyc1', 'cyc2', 'cyc3',
-          'undefined', 'unused', 'redefinition', 'agg', 'shadow']
+          'undefined', 'unused', 'redefinition', 'agg', 'shadow', 'names', 'fun']
 # quick tier: how many graphs are drawn from each TLC shard
 QUICK_PER_SHARD = {'acc1': 40, 'acc2': 45, 'acc3': 45, 'acc4': 45, 'acc5': 45,
                    'dbl': 30, 'cyc1': 20, 'cyc2': 20, 'cyc3': 20,
                    'undefined': 25, 'unused': 25, 'redefinition': 25,
-                   'agg': 45, 'shadow': 45}
+                   'agg': 45, 'shadow': 45, 'names': 48, 'fun': 45}
 # shapes the property quantifies over: each must reach the implementation
 REQUIRED_SHAPES = ['ok', 'chain', 'diamond', 'double_import', 'same_base_name',
                    'alias', 'no_alias', 'two_roots', 'table_helper',
                    'functional_helper', 'circular', 'undefined', 'unused',
                    'redefinition', 'agg_multi_rule', 'agg_disjunction',
-                   'shadow_real_first', 'shadow_decoy_first']
+                   'shadow_real_first', 'shadow_decoy_first',
+                   'lowercase_private', 'redefinition_in_module',
+                   'functor_const_in_module', 'functor_const_across_import']
 REQUIRED_ACTIONS = ['BeginFile', 'SkipParsed', 'Circular', 'RejectImport',
                     'FinishFile', 'Emit']
 PARSERS = ('PY', 'CPP')
@@ -149,12 +151,13 @@ def ImportLine(g, imp):
   return s + ';'
 
 
-def ModuleText(g, imps, preds, main=False):
+def ModuleText(g, imps, preds, main=False, makes=()):
   """Source text of one physical file: the import statements followed by the
   module the specification printed."""
   lines = ['@Engine("sqlite");'] if main else []
   lines += [ImportLine(g, i) for i in imps]
-  body = ir.RenderProgram({'preds': preds, 'ann': []}, engine_line=None)
+  body = ir.RenderProgram({'preds': preds, 'ann': [], 'makes': list(makes)},
+                          engine_line=None)
   return '\n'.join(lines) + '\n' + body
 
 
@@ -162,10 +165,11 @@ def FileText(case, f):
   """Text of the copy of file f (1 = main) that the lookup reads."""
   g = case['g']
   if f == 1:
-    return ModuleText(g, g['imps'][0], case['mods'][0], main=True)
+    return ModuleText(g, g['imps'][0], case['mods'][0], main=True,
+                      makes=case.get('main_makes', ()))
   for c in case['copies']:
     if c['f'] == f and c['real']:
-      return ModuleText(g, c['imps'], c['mod'])
+      return ModuleText(g, c['imps'], c['mod'], makes=c.get('makes', ()))
   raise KeyError(f)
 
 
@@ -188,7 +192,7 @@ def Materialize(case, base):
     rel = os.path.join('root%d' % c['root'], *fl['path']) + '.l'
     full = os.path.join(base, rel)
     os.makedirs(os.path.dirname(full), exist_ok=True)
-    text = ModuleText(g, c['imps'], c['mod'])
+    text = ModuleText(g, c['imps'], c['mod'], makes=c.get('makes', ()))
     assert rel not in written, rel
     with open(full, 'w') as fh:
       fh.write(text)
@@ -345,7 +349,8 @@ def Validate(lines, tag, timeout=3000):
 NONTRIVIAL = {'chain', 'diamond', 'double_import', 'same_base_name', 'two_roots',
               'circular', 'undefined', 'unused', 'redefinition',
               'agg_multi_rule', 'agg_disjunction', 'shadow_real_first',
-              'shadow_decoy_first'}
+              'shadow_decoy_first', 'lowercase_private',
+              'functor_const_in_module', 'functor_const_across_import'}
 RULE = ('TLC enumerates every import graph of spec/Imports.tla (main + <= 3 '
         'imported files in <= 3 directories; <= 2 import statements per file, '
         'both statement orders; 3 alias styles; 5 path namings incl. shared '
@@ -355,7 +360,11 @@ RULE = ('TLC enumerates every import graph of spec/Imports.tla (main + <= 3 '
         'rewrites it through auxiliary predicates); a second file with the '
         'same module path and other contents under the other import root '
         '(the first root wins), both orders; the main program importing one '
-        'file twice, all '
+        'file twice; every file naming its private predicate helper / '
+        '_helper / h2x / `helper` (lower-case, underscore, digit, backtick); '
+        'functor applications with a constant argument inside every file '
+        '(VeryBig := Big(Threshold: 4)) and across the import boundary (main '
+        'imports Big and Threshold and makes Made := BigI(ThrI: 5)); all '
         'cyclic adjacencies incl. self import, and one injected error per '
         'statement: undefined / unused / redefinition).  quick = seeded '
         'stratified sample per TLC shard, thorough = all.  Each graph is run '
@@ -507,7 +516,8 @@ def Run(tier):
 
   pick = []
   for want in ('diamond', 'same_base_name', 'circular', 'redefinition',
-               'agg_multi_rule', 'shadow_decoy_first'):
+               'agg_multi_rule', 'shadow_decoy_first', 'lowercase_private',
+               'functor_const_across_import'):
     for c, r in zip(cases, runs):
       if want in c['shapes'] and c['id'] not in [p['id'] for p in pick]:
         pick.append(Sample(c, r))
